@@ -332,3 +332,86 @@ def replay_equiv(p1, p2, sizes, model, timeout=120):
             pass
         return True, f'gfortran outputs differ: original {t1} vs transformed {t2}'
     return False, f'gfortran outputs agree: {t1}'
+
+
+# ------------------------------------------------------------------------------------------------ self-validation
+
+def selfcheck(prog, sizes, seed=0, timeout=120):
+    """Validate the interpreter against gfortran on one program: choose concrete inputs (seeded, within the
+    assumptions), evaluate the interpreter's observables under them and compare with the compiled program's output.
+    returns (ok: bool|None, message)"""
+    import random  # pylint: disable=import-outside-toplevel
+    rnd = random.Random(seed)
+    sem = Sem('real')
+    try:
+        it, fr, obs = _interpret(sem, prog, sizes, (), 6, 6)
+    except NotEncoded as ex:
+        return None, f'not encoded: {ex}'
+    opt = z3.Optimize()
+    opt.set('timeout', 20000)
+    opt.add(*sem.ranges, *sem.defined, z3.Not(it.trap), z3.Not(it.unwind_violation), z3.Not(it.aborted))
+    for name, v in sorted(it.inputs.items()):
+        if v.sort() == z3.IntSort():
+            opt.add_soft(v == rnd.randint(-4, 5))
+        elif v.sort() == z3.RealSort():
+            opt.add(z3.And(v >= -8, v <= 8))
+            opt.add_soft(v == z3.RealVal(f'{rnd.randint(-12, 12)}/4'))
+        else:
+            opt.add_soft(v == z3.BoolVal(rnd.random() < 0.5))
+    if str(opt.check()) != 'sat':
+        return None, 'no admissible input found'
+    m = opt.model()
+    model = {n: model_value2(m, v) for n, v in it.inputs.items()}
+    want = {}
+    for label, term in obs:
+        if '::' in label:
+            continue
+        base = label.split('[#')[0]
+        want.setdefault(base, []).append(model_value2(m, term))
+    try:
+        decl, init, args, out = driver_source(prog.entry, sizes, model, 'self', prog.absent)
+    except NotEncoded as ex:
+        return None, f'no driver: {ex}'
+    uses = ''.join(f'  use {mm.name}\n' for mm in prog.modules)
+    inmod = getattr(prog.entry, 'parent', None) is not None
+    lines = ['program rp', uses.rstrip('\n') if uses else '', '  implicit none'] + decl + init
+    if getattr(prog.entry, 'is_function', False):
+        return None, 'function entry'
+    lines.append(f"  call {prog.entry.name}({', '.join(args if inmod else [a.split('=')[0] for a in args])})")
+    for o in out:
+        lines.append(f"  print *, '@{o}', {o}")
+    lines.append('end program rp')
+    drv = '\n'.join(l for l in lines if l != '')
+    ok, so, se = RP.run_fortran([('prog.F90', prog.fortran() + '\n'), ('drv.F90', drv + '\n')], timeout=timeout,
+                                flags=('-fcheck=bounds', '-fdefault-real-8'))
+    if not ok:
+        return None, f'gfortran failed: {se[-200:]}'
+    got = {}
+    for line in so.splitlines():
+        t = line.split()
+        if t and t[0].startswith('@'):
+            got[t[0][1:].lower()] = t[1:]
+    bad = []
+    for base, vals in want.items():
+        g = got.get(base)
+        if g is None:
+            continue
+        if len(g) != len(vals):
+            bad.append(f'{base}: {len(g)} values vs {len(vals)}')
+            continue
+        for k, (gv, wv) in enumerate(zip(g, vals)):
+            if isinstance(wv, bool):
+                if (gv == 'T') != wv:
+                    bad.append(f'{base}#{k + 1}: gfortran {gv} interpreter {wv}')
+            else:
+                w = wv[0] / wv[1] if isinstance(wv, tuple) else float(wv)
+                try:
+                    gf = float(gv)
+                except ValueError:
+                    bad.append(f'{base}#{k + 1}: gfortran {gv!r}')
+                    continue
+                if abs(gf - w) > 1e-6 * max(1.0, abs(w)):
+                    bad.append(f'{base}#{k + 1}: gfortran {gf} interpreter {w}')
+    if bad:
+        return False, f'inputs {model}: ' + '; '.join(bad[:6])
+    return True, f'{sum(len(v) for v in want.values())} observables agree'
